@@ -145,6 +145,14 @@ func (g *vfGen) htmlInputs(n int) [][]byte {
 }
 
 func (g *vfGen) genC01() {
+	// the charset entry points on empty and white-space-only input, and on the shortest prologues
+	for _, w := range []string{"", " ", "\n", " \t\r\n\x0c ", "<", "<?", "<?xml", "<?xml ", "<?xml?>", "<m", "<meta", "<meta ", "<meta charset", "<meta charset=", "\xef\xbb\xbf", "\xff\xfe", "\xfe"} {
+		for _, k := range []string{"plain", "html", "xml"} {
+			g.emit(vfOp("cs", k, []byte(w)))
+		}
+		g.emit(vfOp("meta", []byte(w)))
+		g.emit(vfOp("xmlenc", []byte(w)))
+	}
 	// 1. every corpus entry cut at every (short) length, through Detect with the limit at / around the cut
 	for _, c := range vfCorpus() {
 		max := len(c)
